@@ -58,6 +58,7 @@ FIELDS = {
 }
 
 COQ_TY = {
+    "pair range range": "(range * range)",
     "bool": "bool",
     "nat": "nat",
     "optver": "option V.t",
@@ -638,6 +639,12 @@ class Translator:
         return f"(pif {t} {yes} {no})"
 
     def for_stmt(self, s, env, cont, ret_ty):
+        """`for` over a list, lambda-lifted into a named top-level Fixpoint.
+        Parameters: every variable in scope (constant ones first), then the list
+        (structural argument), then the loop-carried variables.  The code after the
+        loop (and the else-block) is inlined at the loop's exits."""
+        if getattr(self, "_in_loop", False):
+            self.bad(s, "nested for loops")
         it = s.iter
         iter_name = None
         if isinstance(it, ast.Name) and it.id in env and env[it.id][1].startswith("list"):
@@ -646,7 +653,6 @@ class Translator:
         if not lty.startswith("list ") or not lp:
             self.bad(s, f"for over {lty}")
         elty = lty[5:]
-        # loop-carried variables: names assigned / appended-to in the body that exist outside
         carried = []
         for n in ast.walk(ast.Module(body=s.body, type_ignores=[])):
             nm = None
@@ -657,53 +663,65 @@ class Translator:
                 nm = n.func.value.id
             if nm and nm in env and nm not in carried:
                 carried.append(nm)
-        loop = self.gensym("loop")
-        xs, rest = self.gensym("xs"), self.gensym("rest")
-        x = self.gensym("x")
-        params = [(c, self.gensym(cname(c)), env[c][1]) for c in carried]
-        env_in = dict(env)
-        for c, n, ty in params:
-            env_in[c] = (n, ty)
-        if iter_name:
-            env_in[iter_name] = (rest, lty)
-        # bind the target
-        if isinstance(s.target, ast.Name):
-            env_in[s.target.id] = (x, elty)
-            pat = x
-        elif isinstance(s.target, ast.Tuple) and elty.startswith("pair ") and len(s.target.elts) == 2:
-            a, b = (self.gensym(cname(t.id)) for t in s.target.elts)
-            env_in[s.target.elts[0].id] = (a, "range")
-            env_in[s.target.elts[1].id] = (b, "range")
-            pat = f"({a}, {b})"
-        else:
-            self.bad(s, "for target")
+        scope = [v for v in env if v != "__class__" and not env[v][1].startswith("unit_") and v != iter_name]
+        consts = [v for v in scope if v not in carried]
+        key = (id(s), tuple((v, env[v][1]) for v in scope), iter_name)
+        cache = self.__dict__.setdefault("_loop_cache", {})
+        if key not in cache:
+            self._loop_count = getattr(self, "_loop_count", 0) + 1
+            fname = f"{self.cur_fn}_loop{self._loop_count}"
+            saved_fresh, self.fresh = self.fresh, 0
+            self._in_loop = True
+            try:
+                pname = {v: f"{cname(v)}_p" for v in scope}
+                env_c = {"__class__": env["__class__"]}
+                for v in env:
+                    if v != "__class__" and env[v][1].startswith("unit_"):
+                        env_c[v] = env[v]
+                for v in scope:
+                    env_c[v] = (pname[v], env[v][1])
+                xs, rest, x = "xs", "rest", "x"
+                env_in = dict(env_c)
+                if iter_name:
+                    env_in[iter_name] = (rest, lty)
+                if isinstance(s.target, ast.Name):
+                    env_in[s.target.id] = (x, elty)
+                    pat = x
+                elif isinstance(s.target, ast.Tuple) and elty.startswith("pair ") and len(s.target.elts) == 2 \
+                        and all(isinstance(t, ast.Name) for t in s.target.elts):
+                    a, b = (cname(t.id) + "_x" for t in s.target.elts)
+                    env_in[s.target.elts[0].id] = (a, "range")
+                    env_in[s.target.elts[1].id] = (b, "range")
+                    pat = f"({a}, {b})"
+                else:
+                    self.bad(s, "for target")
 
-        def call_loop(e2, lst):
-            return f"({loop} {lst} {' '.join(e2[c][0] for c in carried)})" if carried else f"({loop} {lst})"
+                def call_loop(e2, lst):
+                    args = [pname[v] for v in consts] + [lst] + [e2[c][0] for c in carried]
+                    return f"({fname} {' '.join(args)})"
 
-        def after_env(e2):
-            # environment after the loop: carried variables keep their current names
-            out = dict(env)
-            for c in carried:
-                out[c] = e2[c]
-            return out
+                def after_env(e2):
+                    out = dict(env_c)
+                    for c in carried:
+                        out[c] = e2[c]
+                    return out
 
-        loopctx = {
-            "cont": lambda e2: call_loop(e2, rest),
-            "brk": lambda e2: cont(after_env(e2)),
-        }
-        body = self.block(s.body, env_in, loopctx["cont"], ret_ty, loopctx)
-        # exhaustion: else-block, then the code after the loop
-        env_done = dict(env)
-        for c, n, ty in params:
-            env_done[c] = (n, ty)
-        done = self.block(s.orelse, env_done, lambda e2: cont(after_env(e2)), ret_ty, None)
-        sig = " ".join(f"({n} : {COQ_TY[ty]})" for _, n, ty in params)
-        el_coq = COQ_TY[elty]
-        fixdef = (f"(fix {loop} ({xs} : list {el_coq}) {sig} {{struct {xs}}} : pyres {COQ_TY[ret_ty]} :=\n"
-                  f"     match {xs} with\n     | [] => {done}\n     | {pat} :: {rest} => {body}\n     end)")
-        init = " ".join(env[c][0] for c in carried)
-        return f"({fixdef} {lt} {init})"
+                loopctx = {"cont": lambda e2: call_loop(e2, rest), "brk": lambda e2: cont(after_env(e2))}
+                body = self.block(s.body, env_in, loopctx["cont"], ret_ty, loopctx)
+                done = self.block(s.orelse, dict(env_c), lambda e2: cont(after_env(e2)), ret_ty, None)
+                sig = " ".join(f"({pname[v]} : {COQ_TY[env[v][1]]})" for v in consts)
+                sig += f" ({xs} : list {COQ_TY[elty]})"
+                sig += "".join(f" ({pname[v]} : {COQ_TY[env[v][1]]})" for v in carried)
+                self.out.append(
+                    f"Fixpoint {fname} {sig} {{struct {xs}}} : pyres {COQ_TY[ret_ty]} :=\n"
+                    f"  match {xs} with\n  | [] => {done}\n  | {pat} :: {rest} => {body}\n  end.\n")
+                cache[key] = (fname, consts, carried)
+            finally:
+                self._in_loop = False
+                self.fresh = saved_fresh
+        fname, consts, carried = cache[key]
+        args = [env[v][0] for v in consts] + [lt] + [env[c][0] for c in carried]
+        return f"({fname} {' '.join(args)})"
 
     # ------------------------------------------------------- variable types
     def infer_vartypes(self, fn, env0):
@@ -775,6 +793,8 @@ class Translator:
             env[a.arg] = (cname(a.arg), ty)
             params.append((a.arg, ty))
         ret_ty = self.ann_type(fn.returns, fn)
+        self.cur_fn = f"{info['prefix']}_{fn.name.strip('_')}{suffix}"
+        self._loop_count = 0
         self.vartypes = {}
         self.vartypes = self.infer_vartypes(fn, env)
         body_stmts = fn.body
